@@ -1,0 +1,208 @@
+//! C04: dumps the inputs and outputs of `layout_section_parts`, `layout_sections` and
+//! `compute_segment_layout` (plus the output order produced by `OutputOrderBuilder` and what it was
+//! built from) as a line-oriented text file `<dir>/layout.txt` when `WILD_VERIF_DUMP=<dir>` is set.
+//! Compiled only with the `verif` feature. Only observes; adds no behaviour.
+//!
+//! Lines (all numbers hex without prefix unless noted; ids decimal):
+//!   `cfg partial=<0|1> base=<hex> page=<exp> stack=<hex> relropad=<secid>`
+//!   `def <idx> load=<b> w=<b> x=<b> tls=<b> stack=<b> cut=<b> key=<dec> uncond=<b> name=<text>`
+//!   `seg <segid> def=<idx>`                      (idx counts conditional defs first, then unconditional)
+//!   `sec <id> prim=<id|-> alloc=<b> w=<b> x=<b> tls=<b> nobits=<b> hasdata=<b> emitted=<b>
+//!        minalign=<exp> loc=<hex|-> incl=<hex bitmask over conditional defs> name=<text>`
+//!   `szs <id> <alignexp>:<size> ...`             one token per part of the section
+//!   `ev S <segid>` | `ev E <segid>` | `ev X <secid>` | `ev L <hex addr>`
+//!   `lay <id> <fileoff>:<memoff>:<filesz>:<memsz>:<alignexp> ...`   per part (layout_section_parts)
+//!   `sl <id> <fileoff> <memoff> <filesz> <memsz> <alignexp>`        layout_sections
+//!   `active <segid> ...`
+//!   `sg <segid> <fileoff> <memoff> <filesz> <memsz> <alignexp>`     compute_segment_layout, final order
+//!   `sgdone`
+
+use crate::layout::HeaderInfo;
+use crate::layout::OutputRecordLayout;
+use crate::layout::SegmentLayouts;
+use crate::output_section_id::OrderEvent;
+use crate::output_section_id::OutputOrder;
+use crate::output_section_id::OutputSections;
+use crate::output_section_map::OutputSectionMap;
+use crate::output_section_part_map::OutputSectionPartMap;
+use crate::platform::Args as _;
+use crate::platform::Platform;
+use crate::platform::ProgramSegmentDef as _;
+use crate::platform::SectionAttributes as _;
+use crate::platform::SectionFlags as _;
+use crate::program_segments::ProgramSegments;
+use std::fmt::Write as _;
+use std::io::Write as _;
+
+pub const ENV_DUMP: &str = "WILD_VERIF_DUMP";
+
+fn dump_path() -> Option<std::path::PathBuf> {
+    let dir = std::env::var_os(ENV_DUMP)?;
+    Some(std::path::Path::new(&dir).join("layout.txt"))
+}
+
+fn b(v: bool) -> u8 {
+    u8::from(v)
+}
+
+fn clean(s: &str) -> String {
+    s.chars()
+        .map(|c| if c.is_whitespace() { '_' } else { c })
+        .collect()
+}
+
+/// Called after `layout_sections`: everything `layout_section_parts` / `compute_segment_layout`
+/// read, and the part / section layouts that were computed.
+pub(crate) fn dump_parts<P: Platform>(
+    sizes: &OutputSectionPartMap<u64>,
+    part_layouts: &OutputSectionPartMap<OutputRecordLayout>,
+    section_layouts: &OutputSectionMap<OutputRecordLayout>,
+    output_sections: &OutputSections<P>,
+    output_order: &OutputOrder,
+    program_segments: &ProgramSegments<P::ProgramSegmentDef>,
+    header_info: &HeaderInfo,
+    args: &P::Args,
+) {
+    let Some(path) = dump_path() else {
+        return;
+    };
+    let mut o = String::new();
+    let _ = writeln!(
+        o,
+        "cfg partial={} base={:x} page={} stack={:x} relropad={}",
+        b(args.should_output_partial_object()),
+        output_sections.base_address,
+        args.loadable_segment_alignment().exponent,
+        args.stack_size_override().map_or(0, |s| s.get()),
+        crate::output_section_id::RELRO_PADDING.as_usize(),
+    );
+    let cond = P::program_segment_defs();
+    let uncond = P::unconditional_segment_defs();
+    let mut def_names = Vec::new();
+    for (i, (def, is_uncond)) in cond
+        .iter()
+        .map(|d| (d, false))
+        .chain(uncond.iter().map(|d| (d, true)))
+        .enumerate()
+    {
+        let name = clean(&def.to_string());
+        let _ = writeln!(
+            o,
+            "def {i} load={} w={} x={} tls={} stack={} cut={} key={} uncond={} name={name}",
+            b(def.is_loadable()),
+            b(def.is_writable()),
+            b(def.is_executable()),
+            b(def.is_tls()),
+            b(def.is_stack()),
+            b(def.should_cut_rw_segment_when_ending()),
+            def.order_key(),
+            b(is_uncond),
+        );
+        def_names.push(name);
+    }
+    for (i, def) in program_segments.into_iter().enumerate() {
+        let name = clean(&def.to_string());
+        let idx = def_names.iter().position(|n| *n == name).unwrap_or(usize::MAX);
+        let _ = writeln!(o, "seg {i} def={idx}");
+    }
+    for (id, info) in output_sections.ids_with_info() {
+        let primary = output_sections.primary_output_section(id);
+        let attrs = info.section_attributes;
+        let mut incl: u64 = 0;
+        for (i, def) in cond.iter().enumerate() {
+            if output_sections.should_include_in_segment(id, *def) {
+                incl |= 1 << i;
+            }
+        }
+        let _ = writeln!(
+            o,
+            "sec {} prim={} alloc={} w={} x={} tls={} nobits={} hasdata={} emitted={} minalign={} loc={} incl={:x} name={}",
+            id.as_usize(),
+            output_sections
+                .merge_target(id)
+                .map_or("-".to_owned(), |p| p.as_usize().to_string()),
+            b(output_sections.section_flags(primary).is_alloc()),
+            b(attrs.is_writable()),
+            b(attrs.is_executable()),
+            b(attrs.is_tls()),
+            b(attrs.is_no_bits()),
+            b(output_sections.has_data_in_file(primary)),
+            b(output_sections.output_section_indexes[primary.as_usize()].is_some()),
+            info.min_alignment.exponent,
+            info.location
+                .map_or("-".to_owned(), |l| format!("{:x}", l.address)),
+            incl,
+            clean(&output_sections.display_name(id)),
+        );
+        let range = id.part_id_range();
+        let _ = write!(o, "szs {}", id.as_usize());
+        for (k, size) in sizes[range.clone()].iter().enumerate() {
+            let _ = write!(
+                o,
+                " {}:{:x}",
+                range.start.offset(k).alignment(output_sections).exponent,
+                size
+            );
+        }
+        let _ = writeln!(o);
+        let _ = write!(o, "lay {}", id.as_usize());
+        for l in &part_layouts[range] {
+            let _ = write!(
+                o,
+                " {:x}:{:x}:{:x}:{:x}:{}",
+                l.file_offset, l.mem_offset, l.file_size, l.mem_size, l.alignment.exponent
+            );
+        }
+        let _ = writeln!(o);
+        let l = section_layouts.get(id);
+        let _ = writeln!(
+            o,
+            "sl {} {:x} {:x} {:x} {:x} {}",
+            id.as_usize(),
+            l.file_offset,
+            l.mem_offset,
+            l.file_size,
+            l.mem_size,
+            l.alignment.exponent
+        );
+    }
+    for event in output_order {
+        let _ = match event {
+            OrderEvent::SegmentStart(id) => writeln!(o, "ev S {}", id.as_usize()),
+            OrderEvent::SegmentEnd(id) => writeln!(o, "ev E {}", id.as_usize()),
+            OrderEvent::Section(id) => writeln!(o, "ev X {}", id.as_usize()),
+            OrderEvent::SetLocation(l) => writeln!(o, "ev L {:x}", l.address),
+        };
+    }
+    let _ = write!(o, "active");
+    for id in &header_info.active_segment_ids {
+        let _ = write!(o, " {}", id.as_usize());
+    }
+    let _ = writeln!(o);
+    let _ = std::fs::write(path, o);
+}
+
+/// Called after a successful `compute_segment_layout`.
+pub(crate) fn dump_segments(segment_layouts: &SegmentLayouts) {
+    let Some(path) = dump_path() else {
+        return;
+    };
+    let mut o = String::new();
+    for s in &segment_layouts.segments {
+        let l = &s.sizes;
+        let _ = writeln!(
+            o,
+            "sg {} {:x} {:x} {:x} {:x} {}",
+            s.id.as_usize(),
+            l.file_offset,
+            l.mem_offset,
+            l.file_size,
+            l.mem_size,
+            l.alignment.exponent
+        );
+    }
+    let _ = writeln!(o, "sgdone");
+    if let Ok(mut f) = std::fs::OpenOptions::new().append(true).open(path) {
+        let _ = f.write_all(o.as_bytes());
+    }
+}
